@@ -139,3 +139,118 @@ loop('ResourceManager._release_resources', 1, 'for (resource_name, amount) in re
       'resources_fixed': 'dmap(resources) == at_loop_entry(dmap(resources)) and '
                          'seq(keys(resources)) == at_loop_entry(seq(keys(resources)))'},
      modifies=['self._resources[]', '$trace'], index='k')
+
+contract('ResourceManager.__init__', props=['C09', 'C10'], args={}, invariants='prove_only',
+         ensures={'starts_empty': 'len(self._resources) == 0 and len(self._waiting_requests) == 0 and self._env is None'})
+
+# --------------------------------------------------------------------------- ReservedResources
+invariant('ReservedResources', 'holdings_exist',
+          'self._reserved_resources is not None and alive(self._reserved_resources) and '
+          'self._resource_manager is not None and alive(self._resource_manager)')
+invariant('ReservedResources', 'holdings_positive', 'all(self._reserved_resources[n] > 0 for n in self._reserved_resources)')
+
+specfn('held', ['r', 'n'], 'ite(n in r._reserved_resources, r._reserved_resources[n], 0)')
+# what the pool must satisfy for a release of x to be possible: the manager is initialised and pools every held name
+RR_PRE = {'manager_ready': 'self._resource_manager._env is not None and alive(self._resource_manager._env) and '
+                           'self._resource_manager._resources is not None and alive(self._resource_manager._resources) and '
+                           'self._resource_manager._resources is not self._reserved_resources',
+          'held_names_are_pooled': 'all(n in self._resource_manager._resources for n in self._reserved_resources)'}
+
+contract('ReservedResources.reserved_resources', props=['C09'], args={}, result='dict[str,real]',
+         ensures={'is_copy': 'fresh(result) and dmap(result) == dmap(self._reserved_resources)'}, modifies=[])
+
+contract('ReservedResources.release', props=['C09', 'C10'], args={'resources': 'dict[str,real]?'},
+         requires=dict(RR_PRE, argument_is_a_dict='resources is None or (alive(resources) and '
+                                                  'resources is not self._resource_manager._resources)'),
+         raises={'ValueError': (None, {'raises_unchanged': '@frame:'}),
+                 'KeyError': (None, {'raises_unchanged': '@frame:'})},
+         ensures={
+             'only_valid_requests_succeed':
+                 'old(resources is None or all(resources[n] >= 0 and resources[n] <= held(self, n) for n in resources))',
+             'gives_back_exactly':
+                 'all(use(self._resource_manager, n) == old(use(self._resource_manager, n)) - '
+                 '    old(ite(resources is None, held(self, n), ite(n in resources, resources[n], 0))) and '
+                 '    cap(self._resource_manager, n) == old(cap(self._resource_manager, n)) for n in refs())',
+             'holdings_reduced_exactly':
+                 'all(held(self, n) == old(held(self, n)) - '
+                 '    old(ite(resources is None, held(self, n), ite(n in resources, resources[n], 0))) for n in refs())',
+         })
+# loop 1: validation of a partial release
+loop('ReservedResources.release', 1, 'for (resource_name, amount) in resources.items()',
+     {'validated_prefix':
+          'all(resources[keys(resources)[j]] >= 0 and '
+          '    (resources[keys(resources)[j]] == 0 or (keys(resources)[j] in self._reserved_resources and '
+          '     self._reserved_resources[keys(resources)[j]] >= resources[keys(resources)[j]])) for j in range(k))'},
+     modifies=[], index='k')
+# loop 2: holdings are reduced; g_td[j] = position in to_delete of the j-th key if it reached zero,
+#         g_src[i] = index of the key that to_delete[i] came from (strictly increasing)
+ghost_after('ReservedResources.release', '<entry>', g_td='imap(lambda j: -1)', g_src='imap(lambda i: -1)')
+ghost_after('ReservedResources.release', 'to_delete.append(resource_name)',
+            g_td='imap(lambda j: ite(j == k, len(to_delete) - 1, g_td[j]))',
+            g_src='imap(lambda i: ite(i == len(to_delete) - 1, k, g_src[i]))')
+loop('ReservedResources.release', 2, 'for (resource_name, amount) in resources.items()',
+     {'domains_fixed':
+          'all((n in self._reserved_resources) == at_loop_entry(n in self._reserved_resources) and '
+          '    (n in resources) == at_loop_entry(n in resources) for n in refs()) and '
+          'seq(keys(resources)) == at_loop_entry(seq(keys(resources))) and '
+          'seq(keys(self._reserved_resources)) == at_loop_entry(seq(keys(self._reserved_resources)))',
+      'reduced_prefix':
+          'all(implies(n in resources, '
+          '            held(self, n) == at_loop_entry(held(self, n)) - '
+          '                ite(key_pos(resources, n) < k, at_loop_entry(resources[n]), 0)) for n in refs()) and '
+          'all(implies(n not in resources, held(self, n) == at_loop_entry(held(self, n))) for n in refs())',
+      'pending_amounts_intact':
+          'all(implies(n in resources and key_pos(resources, n) >= k, resources[n] == at_loop_entry(resources[n])) '
+          '    for n in refs())',
+      'zeros_listed':
+          'all(implies(held(self, keys(resources)[j]) == 0, 0 <= g_td[j] and g_td[j] < len(to_delete) and '
+          '            to_delete[g_td[j]] == keys(resources)[j]) for j in range(k))',
+      'listed_are_zero_keys':
+          'all(0 <= g_src[i] and g_src[i] < k and to_delete[i] == keys(resources)[g_src[i]] and '
+          '    to_delete[i] in self._reserved_resources and self._reserved_resources[to_delete[i]] == 0 '
+          '    for i in range(len(to_delete))) and '
+          'all(g_src[i] < g_src[j] for i in range(len(to_delete)) for j in range(i + 1, len(to_delete)))',
+      'to_delete_is_local': 'alive(to_delete) and k <= len(resources)'},
+     modifies=['self._reserved_resources[]', 'to_delete[]'], index='k')
+loop('ReservedResources.release', 3, 'for resource_name in to_delete',
+     {'survivors_unchanged':
+          'all(implies(n in self._reserved_resources, at_loop_entry(n in self._reserved_resources) and '
+          '            self._reserved_resources[n] == at_loop_entry(self._reserved_resources[n])) for n in refs())',
+      'deleted_prefix': 'all(to_delete[j] not in self._reserved_resources for j in range(k))',
+      'nonzero_survive':
+          'all(implies(at_loop_entry(n in self._reserved_resources and self._reserved_resources[n] != 0), '
+          '            n in self._reserved_resources) for n in refs())',
+      'pending_still_there':
+          'all(to_delete[j] in self._reserved_resources for j in range(k, len(to_delete)))',
+      'listed_distinct': 'all(to_delete[i] != to_delete[j] for i in range(len(to_delete)) for j in range(i + 1, len(to_delete)))',
+      'listed_were_zero':
+          'all(at_loop_entry(to_delete[i] in self._reserved_resources and self._reserved_resources[to_delete[i]] == 0) '
+          '    for i in range(len(to_delete)))'},
+     modifies=['self._reserved_resources[]'], index='k')
+
+contract('ReservedResources.merge', props=['C09'], args={'reserved_resources': 'ref:ReservedResources!'},
+         requires={'two_distinct_reservations':
+                       'reserved_resources is not None and reserved_resources is not self and alive(reserved_resources) and '
+                       'reserved_resources._reserved_resources is not None and alive(reserved_resources._reserved_resources) and '
+                       'reserved_resources._reserved_resources is not self._reserved_resources',
+                   'pool_table_is_a_different_dict':
+                       'self._resource_manager._resources is not None and alive(self._resource_manager._resources) and '
+                       'self._resource_manager._resources is not self._reserved_resources and '
+                       'self._resource_manager._resources is not reserved_resources._reserved_resources',
+                   'other_holdings_positive':
+                       'all(reserved_resources._reserved_resources[n] > 0 for n in reserved_resources._reserved_resources)'},
+         ensures={
+             'holdings_add': 'all(held(self, n) == old(held(self, n)) + old(held(reserved_resources, n)) for n in refs())',
+             'other_emptied': 'len(reserved_resources._reserved_resources) == 0 and '
+                              'all(n not in reserved_resources._reserved_resources for n in refs())',
+             'usage_unchanged': 'all(use(self._resource_manager, n) == old(use(self._resource_manager, n)) and '
+                                'cap(self._resource_manager, n) == old(cap(self._resource_manager, n)) for n in refs())',
+         },
+         modifies=['self._reserved_resources[]', 'reserved_resources._reserved_resources'])
+loop('ReservedResources.merge', 1, 'for (resource_name, amount) in reserved_resources._reserved_resources.items()',
+     {'merged_prefix':
+          'all(held(self, n) == at_loop_entry(held(self, n)) + '
+          '    ite(n in reserved_resources._reserved_resources and key_pos(reserved_resources._reserved_resources, n) < k, '
+          '        reserved_resources._reserved_resources[n], 0) for n in refs())',
+      'still_positive': 'all(self._reserved_resources[n] > 0 for n in self._reserved_resources)'},
+     modifies=['self._reserved_resources[]'], index='k')
